@@ -41,6 +41,11 @@ def run(ctx, crate):
     # emits an Empty row for a blank line of a message makes every ordinary request of that MultiProgress member a forced one (seed C05m)
     from .. import draw_rules as D_
     D_.rule_line_kinds(ctx, crate)
+    # "burst 10, then one request per ms": the adaptors (wrap_iter/read/write/seek, tokio, futures, rayon) report positions through
+    # `inc`/`set_position` - the setters that consult AtomicPosition::allow - and never through `update`, which always requests a draw
+    # (seed C05o: Seek::seek through `update(|s| s.set_pos(..))`, one request per seek)
+    from .c17 import rule_wrap_effects
+    rule_wrap_effects(ctx, crate)
 
 
 def rule_update_before_gate(ctx, crate, rule="R-UPDATE-BEFORE-GATE"):
